@@ -151,7 +151,11 @@ Inductive ev :=
   | EWRet (o : outcome)                (* worker: that call returns o *)
   | EWHandoff                          (* worker's confChan send meets the handler's receive *)
   | EWDone                             (* worker: rebroadcast returns, semaphore released *)
-  | EStop.                             (* close(quit) *)
+  | EStop                              (* close(quit) *)
+  (* a Broadcast request split at the handler's cfg.Broadcast call *)
+  | EBcStart (tx : Z)                  (* the handler takes the request and enters cfg.Broadcast(tx) *)
+  | EBcRet (o : outcome).              (* that call returns o; the handler replies on errChan
+                                          (capacity 1: never waits for the caller) *)
 
 Inductive wstate :=
   | WIdle                              (* no worker; semaphore available *)
@@ -172,7 +176,11 @@ Inductive obs :=
   | OAns                      (* that invocation returned *)
   | OHand (tx : Z)            (* handler dropped tx on the worker's report *)
   | ODone                     (* worker finished *)
-  | OStop.
+  | OStop
+  | OBcHeld (tx : Z)          (* handler invoked cfg.Broadcast(tx) for a caller's request *)
+  | OStopBc (tx : Z)          (* Stop while that call is open: the caller of Broadcast(tx)
+                                 leaves with ErrBroadcasterStopped *)
+  | OAnsH.                    (* the handler's call returned after the caller had left *)
 
 Record st := {
   pending : list Z;   (* keys of `transactions` *)
@@ -180,16 +188,19 @@ Record st := {
   nsort : nat;        (* rebroadcasts started so far *)
   snap : list Z;      (* ghost: the copy handed to the running worker *)
   sent : list Z;      (* ghost: what the running worker has passed to cfg.Broadcast so far *)
+  hbusy : option Z;   (* the handler is inside cfg.Broadcast for a request for this tx *)
   stopped : bool
 }.
 
 Definition init : st :=
-  {| pending := []; wk := WIdle; nsort := 0; snap := []; sent := []; stopped := false |}.
+  {| pending := []; wk := WIdle; nsort := 0; snap := []; sent := []; hbusy := None; stopped := false |}.
 
 Definition set_pending (s : st) (l : list Z) : st :=
-  {| pending := l; wk := wk s; nsort := nsort s; snap := snap s; sent := sent s; stopped := stopped s |}.
+  {| pending := l; wk := wk s; nsort := nsort s; snap := snap s; sent := sent s; hbusy := hbusy s;
+     stopped := stopped s |}.
 Definition set_wk (s : st) (w : wstate) : st :=
-  {| pending := pending s; wk := w; nsort := nsort s; snap := snap s; sent := sent s; stopped := stopped s |}.
+  {| pending := pending s; wk := w; nsort := nsort s; snap := snap s; sent := sent s; hbusy := hbusy s;
+     stopped := stopped s |}.
 
 Section Broadcaster.
 (* wtxmgr.DependencySort on the copy taken by the k-th rebroadcast *)
@@ -201,11 +212,11 @@ Definition trigger (s : st) : st * obs :=
   | WIdle =>
     ({| pending := pending s;
         wk := WRun (match pending s with [] => [] | l => depsort (nsort s) l end);
-        nsort := S (nsort s); snap := pending s; sent := []; stopped := false |}, OTrig)
+        nsort := S (nsort s); snap := pending s; sent := []; hbusy := hbusy s; stopped := false |}, OTrig)
   | _ => (s, OTrig)
   end.
 
-Definition step (s : st) (e : ev) : st * obs :=
+Definition step0 (s : st) (e : ev) : st * obs :=
   match e with
   | EBroadcast tx o =>
     if stopped s then (s, ORet tx RStopped) else
@@ -219,7 +230,7 @@ Definition step (s : st) (e : ev) : st * obs :=
     | WRun (tx :: rest) =>
       if stopped s then (set_wk s WIdle, ODone)
       else ({| pending := pending s; wk := WCall tx rest; nsort := nsort s; snap := snap s;
-               sent := sent s ++ [tx]; stopped := stopped s |}, OSent tx)
+               sent := sent s ++ [tx]; hbusy := hbusy s; stopped := stopped s |}, OSent tx)
     | _ => (s, ONone)
     end
   | EWRet o =>
@@ -244,8 +255,53 @@ Definition step (s : st) (e : ev) : st * obs :=
     end
   | EStop => if stopped s then (s, OStop) else
     ({| pending := pending s; wk := wk s; nsort := nsort s; snap := snap s; sent := sent s;
-        stopped := true |}, OStop)
+        hbusy := hbusy s; stopped := true |}, OStop)
+  | EBcStart _ | EBcRet _ => (s, ONone)
   end.
+
+Definition set_busy (s : st) (b : option Z) : st :=
+  {| pending := pending s; wk := wk s; nsort := nsort s; snap := snap s; sent := sent s;
+     hbusy := b; stopped := stopped s |}.
+
+(* events that need the handler in its select *)
+Definition handler_event (e : ev) : bool :=
+  match e with
+  | EBroadcast _ _ | EConf _ | EBlock | ETick | EWHandoff | EBcStart _ => true
+  | _ => false
+  end.
+
+(* the full step: [step0] is the broadcaster with every Broadcast request
+   served atomically; here a request may also be split (EBcStart .. EBcRet),
+   and while the handler is inside that call nothing else reaches it: its
+   callers and the worker's hand-off wait (ONone) unless quit is closed *)
+Definition step (s : st) (e : ev) : st * obs :=
+  match e with
+  | EBcStart tx =>
+    if stopped s then (s, ORet tx RStopped) else
+    match hbusy s with
+    | Some _ => (s, ONone)
+    | None => (set_busy s (Some tx), OBcHeld tx)
+    end
+  | EBcRet o =>
+    match hbusy s with
+    | None => (s, ONone)
+    | Some tx =>
+      (* errChan <- reply never blocks (buffer 1); after quit the handler
+         then leaves through its select and the map is dead state *)
+      if stopped s then (set_busy s None, OAnsH) else
+      if accepted o then (set_busy (set_pending s (add tx (pending s))) None, ORet tx RNil)
+      else (set_busy s None, ORet tx (RErr o))
+    end
+  | EStop =>
+    match hbusy s with
+    | Some tx => if stopped s then (s, OStop) else (fst (step0 s EStop), OStopBc tx)
+    | None => step0 s EStop
+    end
+  | _ =>
+    if handler_event e && negb (stopped s) && match hbusy s with Some _ => true | None => false end
+    then (s, ONone) else step0 s e
+  end.
+
 
 Fixpoint run_from (s : st) (evs : list ev) : st * list obs :=
   match evs with
@@ -267,6 +323,9 @@ Definition wnext (s : st) (o : outcome) : ev :=
   | WHand _ _ => EWHandoff
   | WIdle => EWDone
   end.
+
+(* the handler's own next transition when it is inside a request's call *)
+Definition hnext (o : outcome) : ev := EBcRet o.
 
 Definition run (evs : list ev) : st := fst (run_from init evs).
 Definition trace (evs : list ev) : list (ev * obs) := combine evs (snd (run_from init evs)).
